@@ -239,11 +239,12 @@ def value_of(label):
     return UDICT[label]()
 
 
-def labels_for(shape):
+def labels_for(shape, tier="quick"):
     labels = [l for l, _ in UNIVERSE]
     if "[" in shape:
         labels += ["[%s]" % l for l, _ in UNIVERSE]
-        labels += ["[%s|%s]" % (a, b) for a in CORE for b in CORE]
+        pair_src = [l for l, _ in UNIVERSE] if tier == "thorough" else CORE
+        labels += ["[%s|%s]" % (a, b) for a in pair_src for b in pair_src if "|" not in a and "|" not in b]
     if "[[" in shape:
         labels += ["[[%s]]" % l for l in CORE]
     return labels
@@ -258,7 +259,7 @@ def run_shard(item):
     ftype = schema.field_def("Query", fname).type
     out = {"counts": {"evaluations": 0}, "tables": {"outcomes": {}}, "sets": {}, "samples": [], "violations": [],
            "machinery": []}
-    labels = labels_for(shape)
+    labels = labels_for(shape, tier)
     for label in labels:
         check_case(schema, engine, kind, fname, ftype, label, value_of(label), out, shape)
     out["counts"]["fields"] = 1
